@@ -88,6 +88,10 @@ def check(repo, rep):
             continue
         msg = gets[0][1]
         isstop = any(ct[0] == 'cmp' and ct[1] in ('==', 'is') and ct[2] == msg and pr.isstop(ct[3]) and tr for ct, tr, _ in l.conds)
+        if l.outcome == 'return' and l.value is not None and l.value[0] == 'cmp' and l.value[1] in ('==', 'is') and l.value[2] == msg and pr.isstop(l.value[3]):
+            sawT = True        # returns (message == STOP): truthy exactly for the stop marker
+            rep.ob('a queued stop marker makes the poll truthy', True, cx.where(poll[0], poll[2]), sample=dict(poll='returns message == STOP'))
+            continue
         if isstop:
             sawT = True
             rep.ob('a queued stop marker makes the poll truthy', l.outcome == 'return' and l.value == ('c', True), cx.where(poll[0], poll[2]), '%s.%s:stop' % (poll[1].name, poll[2].name), 'returns %s' % (show(l.value) if l.value else None),
